@@ -4,6 +4,7 @@ CONSTANTS
   MaxSlot = 7
   MaxGen = 2
   MaxFaults = 1
+  MaxPersist = 1
   Variants = 2
   Kinds = {"att", "blk"}
   FaultKinds = {"rempty"}
